@@ -526,7 +526,7 @@ func runStreams(c *mon.Ctx, s *slib) {
 	}
 
 	// ---- A. valid histories: both encoder modes, every chunking, both subgroup settings, stale targets ----
-	nh := c.Pick(2, 8)
+	nh := c.Pick(2, 12)
 	for hi := 0; hi < nh; hi++ {
 		sizes := []int{0, 1, 2, 3}
 		if hi == 1 {
